@@ -40,20 +40,29 @@ func findCastSites(w *World, c *Check) []castSite {
 					xUnsafe := isUnsafePointer(xt)
 					switch {
 					case xUnsafe && rIsPtr && !rUnsafe:
-						inner, ok := v.X.(*ssa.Convert)
-						if !ok {
+						// an uninstantiated generic body is judged through its instantiations (the source type is a type parameter)
+						if f.TypeParams().Len() > 0 && len(f.TypeArgs()) == 0 {
+							continue
+						}
+						srcs, why := unsafeSources(w, v.X, 0, map[ssa.Value]bool{})
+						if why != "" || len(srcs) == 0 {
+							if why == "" {
+								why = "no typed pointer found"
+							}
 							c.bad("C08.only", funcName(f)+":opaque-unsafe-source", w.InstrPos(v),
-								fmt.Sprintf("conversion to %s from an unsafe.Pointer that is not a direct pointer conversion (%T): undecidable reinterpretation", typeName(rt), v.X))
+								fmt.Sprintf("conversion to %s from an unsafe.Pointer whose origin cannot be traced to typed pointers (%s): undecidable reinterpretation", typeName(rt), why))
 							continue
 						}
-						sp, ok := types.Unalias(inner.X.Type()).Underlying().(*types.Pointer)
-						if !ok {
-							c.bad("C08.only", funcName(f)+":non-pointer-unsafe-source", w.InstrPos(v),
-								fmt.Sprintf("unsafe.Pointer built from %s, not from a typed pointer", typeName(inner.X.Type())))
-							continue
+						for _, src := range srcs {
+							sp, ok := types.Unalias(src.Type()).Underlying().(*types.Pointer)
+							if !ok {
+								c.bad("C08.only", funcName(f)+":non-pointer-unsafe-source", w.InstrPos(v),
+									fmt.Sprintf("unsafe.Pointer built from %s, not from a typed pointer", typeName(src.Type())))
+								continue
+							}
+							_, isAlloc := src.(*ssa.Alloc)
+							sites = append(sites, castSite{fn: f, instr: v, src: sp.Elem(), dst: rPtr.Elem(), valForm: isAlloc})
 						}
-						_, isAlloc := inner.X.(*ssa.Alloc)
-						sites = append(sites, castSite{fn: f, instr: v, src: sp.Elem(), dst: rPtr.Elem(), valForm: isAlloc})
 					case xUnsafe && !rUnsafe:
 						c.bad("C08.only", funcName(f)+":unsafe-to-"+typeName(rt), w.InstrPos(v), "unsafe.Pointer converted to a non-pointer type (uintptr arithmetic is outside the property's allowed mechanism)")
 					case rUnsafe && !xUnsafe:
@@ -248,4 +257,90 @@ func checkReflectFallback(w *World, c *Check) {
 	if n == 0 {
 		c.ok("C08.reflect", "none", "-", "no reflection fallback in the package")
 	}
+}
+
+// unsafeSources traces an unsafe.Pointer value back to the typed pointers it was made from: directly, through a phi or a
+// single-assignment local, or — for an unexported helper that takes the unsafe.Pointer as a parameter — through every
+// call of that helper in the package.
+func unsafeSources(w *World, v ssa.Value, d int, seen map[ssa.Value]bool) ([]ssa.Value, string) {
+	if d > 8 {
+		return nil, "too deep"
+	}
+	if seen[v] {
+		return nil, ""
+	}
+	seen[v] = true
+	switch x := v.(type) {
+	case *ssa.Convert:
+		if isUnsafePointer(x.Type()) && !isUnsafePointer(x.X.Type()) {
+			return []ssa.Value{x.X}, ""
+		}
+		return unsafeSources(w, x.X, d+1, seen)
+	case *ssa.ChangeType:
+		return unsafeSources(w, x.X, d+1, seen)
+	case *ssa.Phi:
+		var out []ssa.Value
+		for _, e := range x.Edges {
+			if k, ok := e.(*ssa.Const); ok && k.Value == nil {
+				continue // the zero unsafe.Pointer of `var p unsafe.Pointer`
+			}
+			s, why := unsafeSources(w, e, d+1, seen)
+			if why != "" {
+				return nil, why
+			}
+			out = append(out, s...)
+		}
+		return out, ""
+	case *ssa.UnOp:
+		if al, ok := x.X.(*ssa.Alloc); ok {
+			var out []ssa.Value
+			for _, st := range storesTo(al) {
+				s, why := unsafeSources(w, st.Val, d+1, seen)
+				if why != "" {
+					return nil, why
+				}
+				out = append(out, s...)
+			}
+			return out, ""
+		}
+		return nil, "loaded from memory"
+	case *ssa.Parameter:
+		fn := x.Parent()
+		if fn == nil || (fn.Object() != nil && fn.Object().Exported() && fn.Parent() == nil) {
+			return nil, "parameter of an exported function"
+		}
+		idx := -1
+		for i, p := range fn.Params {
+			if p == x {
+				idx = i
+			}
+		}
+		var out []ssa.Value
+		ncalls := 0
+		for _, g := range w.Funcs {
+			for _, call := range callsIn(g) {
+				cal := call.Common().StaticCallee()
+				if cal == nil {
+					continue
+				}
+				if cal != fn && cal.Origin() != fn && fn.Origin() != cal {
+					continue
+				}
+				if idx >= len(call.Common().Args) {
+					continue
+				}
+				ncalls++
+				s, why := unsafeSources(w, call.Common().Args[idx], d+1, seen)
+				if why != "" {
+					return nil, why
+				}
+				out = append(out, s...)
+			}
+		}
+		if ncalls == 0 {
+			return nil, "helper is never called"
+		}
+		return out, ""
+	}
+	return nil, fmt.Sprintf("%T", v)
 }
